@@ -362,6 +362,17 @@ class Fn:
                 if rn is None:
                     raise Unsupported('member access through a pointer to an unknown structure: ' + n.get('name', '?'))
                 return self.member_at(self.ev(n['inner'][0], env), rn, n['name'])
+            b0 = strip(n['inner'][0])
+            if b0.get('kind') == 'DeclRefExpr' and b0['referencedDecl']['name'] in self.local_records and not n.get('isArrow'):
+                # a member of an aggregate local: the local is a bundle of scalar variables (`tmp.fmt`, `tmp.arg[0]`, …)
+                nm = b0['referencedDecl']['name']
+                fq_ = n['type'].get('desugaredQualType', n['type']['qualType'])
+                if self.is_aggregate(fq_):
+                    return ('lagg', nm, n['name'], fq_)
+                key = f'{nm}.{n["name"]}'
+                env.setdefault(key, UNINIT)
+                self.kt(key, self.tu.vtype(n))
+                return ('var', key)
             blv = self.lvalue(n['inner'][0], env)
             if blv[0] == 'gagg':
                 key = f'@{blv[1]}.{n["name"]}'
@@ -382,6 +393,9 @@ class Fn:
             if base['kind'] == 'DeclRefExpr' and ('*' + base['referencedDecl']['name']) in env:
                 return ('var', '*' + base['referencedDecl']['name'])
             pt = self.tu.vtype(n['inner'][0])
+            nq_ = n['type'].get('desugaredQualType', n['type']['qualType'])
+            if self.is_aggregate(nq_):
+                return ('agg', self.ev(n['inner'][0], env), nq_)
             return ('mem', self.ev(n['inner'][0], env), self.tu.vtype(n), pt)
         if k == 'ArraySubscriptExpr':
             b, i = n['inner']
@@ -389,6 +403,17 @@ class Fn:
             nm = sb.get('referencedDecl', {}).get('name') if sb.get('kind') == 'DeclRefExpr' else None
             if nm is not None and nm not in env and (nm in self.tables or nm in self.tu.tables):
                 return ('table', nm, self.ev(i, env), self.tu.vtype(i))
+            sb0 = strip(sb) if sb.get('kind') == 'MemberExpr' else sb
+            if sb0.get('kind') == 'MemberExpr' and not sb0.get('isArrow'):
+                bb = strip(sb0['inner'][0])
+                if bb.get('kind') == 'DeclRefExpr' and bb['referencedDecl']['name'] in self.local_records:
+                    si = strip(i)
+                    if si.get('kind') != 'IntegerLiteral':
+                        raise Unsupported('array member of an aggregate local indexed by a non-constant')
+                    key = f'{bb["referencedDecl"]["name"]}.{sb0["name"]}[{int(si["value"])}]'
+                    env.setdefault(key, UNINIT)
+                    self.kt(key, self.tu.vtype(n))
+                    return ('var', key)
             bt, it = self.tu.vtype(b), self.tu.vtype(i)
             if not bt.ptr:
                 b, i, bt, it = i, b, it, bt
@@ -398,6 +423,25 @@ class Fn:
                 return ('agg', addr, nq)
             return ('mem', addr, self.tu.vtype(n), bt)
         raise Unsupported('lvalue ' + k)
+
+    def copy_local_record(self, nm, addr, env):
+        """`*p = tmp` for an aggregate local `tmp` held as scalar variables: one store per scalar member / array element"""
+        rn = self.tu.record_name(self.local_records[nm])
+        if rn is None:
+            raise Unsupported('structure assignment from a local of unknown layout')
+        a0 = self.bind('addr', addr)
+        for f, (off, fq) in self.tu.layout(rn)[1].items():
+            q = self.tu.resolve(fq)
+            m = re.fullmatch(r'(.*)\[(\d+)\]', q)
+            items = [(f'{nm}.{f}[{j}]', off + j * self.tu.sizeof(m.group(1)), m.group(1)) for j in range(int(m.group(2)))] if m else [(f'{nm}.{f}', off, fq)]
+            for key, o_, tq in items:
+                if self.tu.record_name(tq) is not None:
+                    raise Unsupported('nested structure in an aggregate local')
+                if env.get(key) in (None, UNINIT):
+                    raise Unsupported('structure assignment from a local with an unassigned member: ' + key)
+                t = self.tu.vtype_q(tq)
+                self.store(env, a0 if o_ == 0 else f'({a0} + {lit(o_, PTR)})', t, env[key])
+        return '()'
 
     def is_aggregate(self, q):
         q = self.tu.resolve(q)
@@ -602,6 +646,12 @@ class Fn:
                 self.ev(l, env)
                 return self.ev(r, env)
             if op == '=':
+                rs_ = strip(r)
+                if rs_.get('kind') == 'DeclRefExpr' and rs_['referencedDecl']['name'] in self.local_records:
+                    lv = self.lvalue(l, env)
+                    if lv[0] != 'agg':
+                        raise Unsupported('structure assignment to something that is not in memory')
+                    return self.copy_local_record(rs_['referencedDecl']['name'], lv[1], env)
                 lv = self.lvalue(l, env)
                 if lv[0] == 'mem':
                     lv = ('mem', self.bind('addr', lv[1]), lv[2], lv[3])
